@@ -31,6 +31,7 @@ import (
 
 	"go.einride.tech/can"
 	"go.einride.tech/can/pkg/canrunner"
+	"go.einride.tech/can/pkg/descriptor"
 	"go.einride.tech/can/pkg/socketcan"
 	examplecan "go.einride.tech/can/testdata/gen/go/example"
 	"go.uber.org/goleak"
@@ -266,6 +267,10 @@ func startNodeOpt(scen, mode string, emit func(string), opt nodeOpt) (*nodeRun, 
 	r := &nodeRun{scen: scen + "-" + mode, mode: mode, emit: emit, result: make(chan error, 1), runEnd: make(chan struct{}),
 		opt: opt, rl: &runLog{}, inConn: make(chan struct{}), gateCh: make(chan struct{})}
 	r.leak = goleak.IgnoreCurrent()
+	// a panic inside Run's goroutines cannot be caught here and kills the process: leave a note on
+	// stderr which scenario was running (the check puts the panic and this line into the violation)
+	fmt.Fprintf(os.Stderr, "verif_runner: whole-node scenario %s (MotorCommand: send type %s, cycle time %s)\n", r.scen,
+		examplecan.Messages().MotorCommand.SendType, examplecan.Messages().MotorCommand.CycleTime)
 	ctx, cancel := context.WithCancel(context.Background())
 	r.cancel = cancel
 	if opt.precancel {
@@ -1015,6 +1020,125 @@ func wnShapes(mode string, emit func(string)) {
 	}
 }
 
+// wnTickFailure: the failure happens on a TICK-triggered transmission.  kind "hook": the third
+// invocation of the before-transmit hook of the cyclic message fails - Run returns exactly that
+// error, two frames went out, the hook is not invoked again.  kind "transmit" (unix socket only):
+// the peer is gone, the write of a due frame fails - Run returns an error instead of ticking on.
+func wnTickFailure(kind, mode string, emit func(string)) {
+	mcD := examplecan.Messages().MotorCommand
+	old := mcD.CycleTime
+	mcD.CycleTime = 10 * time.Millisecond
+	defer func() { mcD.CycleTime = old }()
+	r, err := startNode("tick"+kind+"err", mode, emit)
+	if err != nil {
+		emit("WN scen=tick" + kind + "err-" + mode + " check=setup ok=0 info=" + hexs(err.Error()))
+		return
+	}
+	mc := r.node.Tx().MotorCommand()
+	if kind == "transmit" {
+		_ = r.peer.conn.Close()
+		locked(r.node, func() { mc.SetCyclicTransmissionEnabled(true) })
+		r.finish("other", "", "")
+		return
+	}
+	hookErr := errors.New("before-transmit hook failed on a cycle tick")
+	var calls int32
+	locked(r.node, func() {
+		mc.SetBeforeTransmitHook(func(context.Context) error {
+			if atomic.AddInt32(&calls, 1) == 3 {
+				return hookErr
+			}
+			return nil
+		})
+		mc.SetCyclicTransmissionEnabled(true)
+	})
+	r.finish("txhook", hookErr.Error(), "MotorCommand")
+	counts := map[uint32]int{}
+	r.peer.collect(counts, 30*time.Millisecond, nil)
+	n := atomic.LoadInt32(&calls)
+	r.hard("no-transmission-after-failure", counts[101] == 2 && n == 3,
+		fmt.Sprintf("MotorCommand: hook invocations=%d (the 3rd failed) frames=%d", n, counts[101]))
+}
+
+// wnNotEligible: "cyclic transmission" enabled (twice, and off and on again) on a message that must
+// not get a ticker - send type event with a cycle time, send type cyclic without a cycle time: no
+// frame without a request, an event request still yields exactly one frame, no panic.
+func wnNotEligible(mode string, emit func(string)) {
+	mcD := examplecan.Messages().MotorCommand
+	oldC, oldT := mcD.CycleTime, mcD.SendType
+	defer func() { mcD.CycleTime, mcD.SendType = oldC, oldT }()
+	for k, cfg := range []struct {
+		st descriptor.SendType
+		c  time.Duration
+	}{{descriptor.SendTypeEvent, 3 * time.Millisecond}, {descriptor.SendTypeNone, 5 * time.Millisecond}, {descriptor.SendTypeCyclic, 0}} {
+		if cfg.c == 0 && atomic.LoadInt32(&sawPanic) != 0 {
+			continue // a ticker with cycle time 0 already panicked under the step controller (reported there); do not die here
+		}
+		mcD.SendType, mcD.CycleTime = cfg.st, cfg.c
+		name := fmt.Sprintf("noticker%d", k)
+		r, err := startNode(name, mode, emit)
+		if err != nil {
+			emit("WN scen=" + name + "-" + mode + " check=setup ok=0 info=" + hexs(err.Error()))
+			continue
+		}
+		mc := r.node.Tx().MotorCommand()
+		set := func(b bool) { locked(r.node, func() { mc.SetCyclicTransmissionEnabled(b) }) }
+		counts := map[uint32]int{}
+		set(true)
+		r.peer.collect(counts, 25*time.Millisecond, nil)
+		set(true)
+		set(false)
+		set(true)
+		r.peer.collect(counts, 25*time.Millisecond, nil)
+		what := fmt.Sprintf("send type %s, cycle time %s, cyclic transmission enabled", cfg.st, cfg.c)
+		r.hard("no-frame-without-trigger", counts[101] == 0, fmt.Sprintf("MotorCommand frames=%d without a request; %s", counts[101], what))
+		ctx, cancel := context.WithTimeout(context.Background(), lw())
+		errT := mc.Transmit(ctx)
+		cancel()
+		r.check("request-accepted", errT == nil, fmt.Sprintf("MotorCommand.Transmit: %v; %s", errT, what))
+		if errT == nil {
+			got := r.peer.collect(counts, lw(), func() bool { return counts[101] >= 1 })
+			r.check("accepted-request-transmitted", got, what)
+			r.peer.collect(counts, 15*time.Millisecond, nil)
+			r.check("one-frame-per-request", counts[101] == 1, fmt.Sprintf("accepted=1 frames=%d; %s", counts[101], what))
+		}
+		r.stop()
+		r.finish("none", "", "")
+	}
+}
+
+// wnReEnable: enabling cyclic transmission that is already enabled, over and over at intervals
+// shorter than the cycle time, must not postpone the frames ("takes effect whatever the runner is
+// doing"; the running ticker is kept, not restarted).
+func wnReEnable(mode string, emit func(string)) {
+	mcD := examplecan.Messages().MotorCommand
+	old := mcD.CycleTime
+	mcD.CycleTime = 40 * time.Millisecond
+	defer func() { mcD.CycleTime = old }()
+	r, err := startNode("reenable", mode, emit)
+	if err != nil {
+		emit("WN scen=reenable-" + mode + " check=setup ok=0 info=" + hexs(err.Error()))
+		return
+	}
+	mc := r.node.Tx().MotorCommand()
+	counts := map[uint32]int{}
+	start := time.Now()
+	limit := 3 * time.Second
+	if lw() < limit {
+		limit = lw()
+	}
+	n := 0
+	for time.Since(start) < limit && counts[101] < 3 && !r.ended() {
+		locked(r.node, func() { mc.SetCyclicTransmissionEnabled(true) })
+		n++
+		r.peer.collect(counts, 12*time.Millisecond, nil)
+	}
+	r.check("enable-takes-effect", counts[101] >= 3,
+		fmt.Sprintf("frames=%d in %s with cycle time 40ms while cyclic transmission was enabled again every 12ms (%d times)", counts[101], time.Since(start).Round(time.Millisecond), n))
+	r.stop()
+	r.finish("none", "", "")
+}
+
 func wholeNode(rounds int, emit0 func(string)) {
 	emit := func(s string) {
 		if strings.HasPrefix(s, "WN ") && strings.Contains(s, " ok=0 ") {
@@ -1028,6 +1152,12 @@ func wholeNode(rounds int, emit0 func(string)) {
 		wnEachMessage(mode, emit)
 		wnRerun(mode, emit)
 		wnShapes(mode, emit)
+		wnTickFailure("hook", mode, emit)
+		if mode == "unix" {
+			wnTickFailure("transmit", mode, emit)
+		}
+		wnNotEligible(mode, emit)
+		wnReEnable(mode, emit)
 		wnCancelEarly("precancel", mode, mode == "unix", emit)
 		wnCancelEarly("connectcancel", mode, false, emit)
 		if mode == "pipe" {
